@@ -14,10 +14,10 @@ Property theorems only (helper lemmas: `CalicoVerif.Proofs.C43`).
 * `blackhole_never_covers_local_wep` — over ALL histories of the manager, a blackhole route never
   has a /32 destination, and the route the resolver emits for a local workload's own address is
   never classified as a local block.
-* `dirty_marking_complete` — inductive invariant over the whole resolver state machine: after any
+* `dirty_marking_complete_partial` — inductive invariant over the whole resolver state machine: after any
   history of node/pool/block updates every block / borrowed-address route downstream is the route
   computed from the CURRENT state (every change was re-sent).
-* `arrival_order_independent` — two histories with the same final datastore (non-overlapping blocks)
+* `arrival_order_independent_partial` — two histories with the same final datastore (non-overlapping blocks)
   send the same RouteUpdate for every such CIDR; `manager_order_independent` — the routeManager's
   stored routes are a function of the last message per destination.
 * `arrival_order_v4cidr_zero_fixed` — regression witness of a defect the oracle found (repaired);
@@ -455,9 +455,9 @@ downstream map (dst ↦ last RouteUpdate) the same, a fresh routeManager holds t
 `routesByDest` and `localIPAMBlocks` entry for every destination — namely the last update for that
 destination, kept iff `stores` / `routeIsLocalBlock` says so — and `updateRoutes` maps each stored
 route through the pure function `targetOf`; so the programmed kinds do not depend on the order in
-which the resolver's messages arrived.  Together with `arrival_order_independent` (the resolver's
-messages themselves do not depend on the order of the datastore updates) this is the property's
-"whatever order the node, pool and block updates arrive in". -/
+which the resolver's messages arrived.  On its own this is a small lemma (its hypothesis is "same
+last message per destination"); it is composed with `arrival_order_independent_partial` in
+`programmed_routes_order_independent_partial`. -/
 theorem manager_order_independent (pt me eth : Nat) (evs1 evs2 : List Event)
     (hsame : ∀ d, aget (applyEvents [] evs1) d = aget (applyEvents [] evs2) d) (d : Cidr) :
     let m1 := evs1.foldl RM.onEvent { pt := pt, me := me, eth0Addr := eth }
@@ -491,14 +491,20 @@ theorem manager_order_independent (pt me eth : Nat) (evs1 evs2 : List Event)
 
 /-! ### the resolver: dirty-marking completeness and order independence -/
 
-/-- **dirty_marking_complete.**  After ANY history of node, pool and block updates (each followed
+/-- **dirty_marking_complete (partial).**  After ANY history of node, pool and block updates (each followed
 by the deferred `flush`), for every CIDR that carries a block / borrowed-address route and nothing
 else at its own CIDR (`Tracked`), the RouteUpdate the dataplane last received for it IS the route
 `flush` would compute from the resolver's CURRENT trie and node table: every change of a computed
 route has been re-sent.  (Inductive invariant `Inv` over the whole modelled state machine:
 `RouteTrie.updateCIDR`, pool "mark children dirty", block "mark descendants dirty", the local-CIDR
-same-subnet re-evaluation, tunnel refs, host entries, `nodeRoutes`, `flush`.) -/
-theorem dirty_marking_complete (me : Nat) (ops : List Op) (hok : ∀ op ∈ ops, op.ok) :
+same-subnet re-evaluation, tunnel refs, host entries, `nodeRoutes`, `flush`.)
+`_partial`, what is missing for the full statement: (i) CIDRs that carry a block route AND a node's
+own address / a tunnel address / a workload ref at the very same CIDR (e.g. a borrowed tunnel IP)
+are not `Tracked`; (ii) histories that contain workload endpoint updates (`Op.ok` excludes them; the
+property's quantifier — pools, node addresses and subnets, blocks and borrowed IPs — does not list
+them, but they interleave in a real Felix).  Both are exercised by the fresh-instance oracle on the
+real code only. -/
+theorem dirty_marking_complete_partial (me : Nat) (ops : List Op) (hok : ∀ op ∈ ops, op.ok) :
     let r := St.run { me := me } [] ops
     ∀ c n, Tracked r.1 c n → c ≠ Cidr.host 0 → aget r.2 c = some (r.1.route c) :=
   fun c n ht h0 => (run_inv ops _ _ hok (inv_init me)).cur c n ht h0
@@ -521,17 +527,18 @@ theorem nodeInOurSubnet_congr (me : Nat) (nodes nodes' : List (Nat × NodeInfo))
     (h : ∀ m, aget nodes' m = aget nodes m) : nodeInOurSubnet me nodes' n = nodeInOurSubnet me nodes n := by
   unfold nodeInOurSubnet; rw [h n, h me]
 
-/-- **arrival_order_independent.**  Take ANY two histories of node, pool and block updates
+/-- **arrival_order_independent (partial).**  Take ANY two histories of node, pool and block updates
 (creations, changes, deletions, in any order and any number) during which IPAM blocks never overlap
 (`DisjAlong`: no CIDR is routed by two blocks), and which end in the same datastore state — the same
 last value per node, per pool and per block (`dsOf`).  Then for every CIDR that carries a block /
 borrowed-address route (and no host / workload / tunnel entry at that very CIDR) the dataplane has
 received the SAME RouteUpdate in both — pool type, owner, owner's address, same-subnet flag,
 borrowed flag and all — hence (by `manager_order_independent` and `route_kind_correct`) the same kind
-of route is programmed.  Not covered: a CIDR that also is a node's own or tunnel address (e.g. a
-borrowed tunnel IP) and histories containing workload endpoint updates; those are checked by the
-fresh-instance oracle on the real code only. -/
-theorem arrival_order_independent (me : Nat) (ops1 ops2 : List Op)
+of route is programmed (`programmed_routes_order_independent_partial`).  `_partial`, not covered:
+a CIDR that also is a node's own or tunnel address (e.g. a borrowed tunnel IP) and histories
+containing workload endpoint updates; those are checked by the fresh-instance oracle on the real
+code only. -/
+theorem arrival_order_independent_partial (me : Nat) (ops1 ops2 : List Op)
     (ok1 : ∀ op ∈ ops1, op.ok) (ok2 : ∀ op ∈ ops2, op.ok)
     (hd1 : DisjAlong DS.empty ops1) (hd2 : DisjAlong DS.empty ops2)
     (hn : ∀ m, (dsOf ops1).nodes m = (dsOf ops2).nodes m)
@@ -606,6 +613,67 @@ example :
     ((aget (St.run { me := 1 } [] h2).2 ⟨3232235840, 26⟩).map (·.sameSubnet) = some true) := by
   unfold Tracked
   decide
+
+/-- all the messages the resolver sends over a history, in order. -/
+def St.runEvents (s : St) : List Op → St × List Event
+  | [] => (s, [])
+  | op :: ops =>
+    let r := s.step op
+    let r2 := St.runEvents r.1 ops
+    (r2.1, r.2 ++ r2.2)
+
+theorem run_eq_runEvents (ops : List Op) (s : St) (sent : List (Cidr × RouteUpdate)) :
+    St.run s sent ops = ((s.runEvents ops).1, applyEvents sent (s.runEvents ops).2) := by
+  induction ops generalizing s sent with
+  | nil => rfl
+  | cons op ops ih =>
+    simp only [St.run, St.runEvents]
+    rw [ih, applyEvents_append]
+
+theorem fold_onEvent_pt (evs : List Event) (m : RM) : (evs.foldl RM.onEvent m).pt = m.pt := by
+  induction evs generalizing m with
+  | nil => rfl
+  | cons e evs ih =>
+    simp only [List.foldl_cons]
+    rw [ih]
+    cases e with
+    | update r => exact (onRouteUpdate_spec m r r.dst).1
+    | remove d0 => exact (deleteRoute_spec m d0 d0).1
+
+/-- **resolver ∘ routeManager, order independence (partial).**  Feed a fresh routeManager (of any
+pool type) every message the resolver emits over a history.  For two histories as in
+`arrival_order_independent_partial` (same final datastore, blocks never overlapping), the manager
+ends up holding the same `routesByDest` / `localIPAMBlocks` entry for every tracked CIDR, so
+`updateRoutes` programs the same kind of route (direct / tunnel / blackhole / none) for it, whatever
+the order in which the node, pool and block updates arrived.  `_partial` for the same two reasons as
+`arrival_order_independent_partial`. -/
+theorem programmed_routes_order_independent_partial (me pt eth : Nat) (ops1 ops2 : List Op)
+    (ok1 : ∀ op ∈ ops1, op.ok) (ok2 : ∀ op ∈ ops2, op.ok)
+    (hd1 : DisjAlong DS.empty ops1) (hd2 : DisjAlong DS.empty ops2)
+    (hn : ∀ m, (dsOf ops1).nodes m = (dsOf ops2).nodes m)
+    (hp : ∀ k, (dsOf ops1).pools k = (dsOf ops2).pools k)
+    (hb : ∀ k, (dsOf ops1).blocks k = (dsOf ops2).blocks k) :
+    let e1 := (St.runEvents { me := me } ops1)
+    let e2 := (St.runEvents { me := me } ops2)
+    let m1 := e1.2.foldl RM.onEvent { pt := pt, me := me, eth0Addr := eth }
+    let m2 := e2.2.foldl RM.onEvent { pt := pt, me := me, eth0Addr := eth }
+    ∀ c n, Tracked e1.1 c n → Tracked e2.1 c n → c ≠ Cidr.host 0 →
+      aget m1.routes c = aget m2.routes c ∧ aget m1.localBlocks c = aget m2.localBlocks c := by
+  intro e1 e2 m1 m2 c n t1 t2 h0
+  have r1 := run_eq_runEvents ops1 { me := me } []
+  have r2 := run_eq_runEvents ops2 { me := me } []
+  have hs1 : (St.run { me := me } [] ops1).1 = e1.1 := by rw [r1]
+  have hs2 : (St.run { me := me } [] ops2).1 = e2.1 := by rw [r2]
+  have hsent := arrival_order_independent_partial me ops1 ops2 ok1 ok2 hd1 hd2 hn hp hb c n
+    (by rw [hs1]; exact t1) (by rw [hs2]; exact t2) h0
+  rw [r1, r2] at hsent
+  have h0' : Agree ({ pt := pt, me := me, eth0Addr := eth } : RM) [] := by intro d; simp [aget]
+  have a1 := agree_fold e1.2 _ _ h0' c
+  have a2 := agree_fold e2.2 _ _ h0' c
+  rw [fold_onEvent_pt] at a1 a2
+  have hsent' : aget (applyEvents [] e1.2) c = aget (applyEvents [] e2.2) c := hsent
+  exact ⟨by show aget m1.routes c = aget m2.routes c; rw [a1.1, a2.1, hsent'],
+         by show aget m1.localBlocks c = aget m2.localBlocks c; rw [a1.2, a2.2, hsent']⟩
 
 /-- Regression witness for the defect repaired by repo commit 7bc5b47 (oracle signature
 `order-dep-local-v4cidr-zero`, replay corpus/C43/local-v4cidr-zero.ops): the local node is first
